@@ -31,6 +31,8 @@ PROPS = [
  ("fix: audio segments addressed by $Time$", ["C02", "C04"]),
  ("fix: publishTime was rounded", ["C05"]),
  ("fix: MPD startNumber ignored the configured start number", ["C02"]),
+ ("fix: generated time-subtitle segments listed by a low-latency MPD", ["C02"]),
+ ("fix: thumbnail segments listed by a low-latency MPD", ["C02"]),
  ("fix: MPD patch: adaptation sets other than video/audio", ["C11"]),
  ("fix: EndTime read ResetTime without the limiter mutex", ["C20"]),
  ("fix: receiver: the stream table was read and written by concurrent upload handlers", ["C19"]),
